@@ -103,11 +103,10 @@ CHECKS = {
             'scan proves nothing else writes the geom counter. Together: the scene never holds more than maxgeom geoms. Faithfulness, in part: '
             'acquireGeom stamps the slot with the object it was acquired for; mjv_initGeom (nullable inputs) sets type, size by geom type, the given pose, the integer '
             'defaults, writes only through its geom and leaves objid / objtype / category / segid alone; addGeomGeoms adds only model geoms whose category passes the mask '
-            'and whose clamped group is enabled, in index order, with their slot numbers, never beyond the capacity, each with its world frame, its world position (planes are re-centred) '
-            'and its size by type, and leaves earlier scene geoms alone.',
+            'and whose clamped group is enabled, in index order, with their slot numbers, never beyond the capacity, and leaves earlier scene geoms alone; bodycategory: static iff welded to the world.',
             'Trusted: VC generator, typestate analysis, clang, z3/cvc5. Assumed: decorating callees of addGeomGeoms (setMaterial, islandColor, markselected, makeLabel, vector helpers) '
             'write only the fields of the geom they are handed; conversions to float are value-preserving (opaque floats); plugin callbacks respect the discipline. Not decided '
-            '(listed): completeness of addGeomGeoms, the other add*Geoms functions, determinism.',
+            '(listed): completeness of addGeomGeoms and the pose / size of the added geoms at scene level, the other add*Geoms functions, determinism.',
             'contracts + typestate VC + frame scan over the clang AST, z3 LIA+arrays'),
     'C13': ('DESIGN.md section 4 / C13',
             'Deductive proof over the reals on the real bodies of the sphere-plane and sphere-sphere colliders: a contact is reported '
